@@ -8,7 +8,11 @@ LEVEL = "proof"
 MODULE = "IwModel.Props.C06"
 THEOREMS = ["IwModel.C06." + t for t in (
     "checkSlots_sound", "checkDb_sound_levels", "checkDb_sound_links", "checkDb_sound_order", "checkDb_sound_nodes",
-    "checkLedger_sound", "audit_sound", "writer_node_slots_ok")]
+    "checkLedger_sound", "audit_sound", "writer_node_slots_ok",
+    # writer of one data block (Model/KvBlk.lean): the slot clause by induction over the operations
+    "blkinv_spec", "blkinv_create", "blkinv_sync", "blkinv_addkv", "blkinv_rmkv", "blkinv_updatev", "blkinv_compact",
+    "blkinv_history", "blkinv_history_from", "addkv_content", "rmkv_content", "updatev_content", "updatev_failure_loses_record",
+    "blkinv_checkSlots", "blkinv_checkSlots_node", "history_checkSlots")]
 MANIFEST = dict(
     level="proof",
     text=("An independent reader of the file format written in Lean (allocator header, bitmap, database chain, node records, data blocks) "
@@ -19,10 +23,17 @@ MANIFEST = dict(
           "pairwise disjoint, referenced once (checkSlots_sound), no block owned twice and bitmap = owned set exactly "
           "(checkLedger_sound). The audit is run by the compiled Lean code on real file images taken during and after generated "
           "histories (database destroy/re-create, metadata resizing, growth/shrink, both WAL modes), the parsed contents are compared "
-          "with a python reference, and every parsed structure is re-encoded by the Lean writer and compared byte for byte with the file"),
+          "with a python reference, and every parsed structure is re-encoded by the Lean writer and compared byte for byte with the file. "
+          "Slot clause by induction: a Lean model of the writer of one data block (create / addkv with compaction and power-of-two growth / "
+          "rmkv with the shrink rule / updatev in place, into the gap, or remove+add / compact / sync, mirrored branch by branch) with the "
+          "invariant BlkInv (32 slots, 0 < len <= off <= 2^szpow - header - index, used slots pairwise disjoint, maxoff, zidx, slot length = "
+          "record size) proved for every operation and every history (blkinv_*), the records changing exactly like an association list "
+          "(*_content), and BlkInv implying a clean checkSlots (blkinv_checkSlots); the model block is compared with the block in the file "
+          "(size power, index size, 32 slot pairs, records, live bytes) after EVERY operation of generated single-node histories"),
     note=("trusted: Lean kernel/compiler, harness, generators, python reference; the invariant is *decided* on explored histories by the "
-          "proved-sound Lean audit, it is not proved inductively over a byte-level model of all C operations; images in WAL mode are "
-          "taken after close only"),
+          "proved-sound Lean audit; an inductive proof over a writer model exists for the slot table of ONE data block only (KvBlk model: "
+          "allocator effects abstracted to the new block size; node record, node splits, chains and the ledger are not in that model); "
+          "images in WAL mode are taken after close only"),
     technique="Lean 4 executable format reader + audit with soundness theorems, evaluated on real file images; byte-exact re-encoding; differential content check")
 
 IMG = re.compile(r"^image (\S+)")
